@@ -135,7 +135,7 @@ def mc_converge(ctx, quick):
         cfg = os.path.join(ctx.scratch, "conv_%d_%d_%d.cfg" % (e, rev, hop))
         open(cfg, "w").write(base.replace("Entry = 2", "Entry = %d" % e).replace("RankRev = FALSE", "RankRev = %s" % str(rev).upper())
                              .replace("Hop = FALSE", "Hop = %s" % str(hop).upper()))
-        r = ctx.mc("mc/MC_Converge.tla", cfg, name="MC_Converge[entry=%d,rankrev=%s,hop=%s]" % (e, rev, hop), expect_ok=False, timeout=3000)
+        r = ctx.mc("mc/MC_Converge.tla", cfg, name="MC_Converge[entry=%d,rankrev=%s,hop=%s]" % (e, rev, hop), expect_ok=False, timeout=4 * 3600)
         if e in MC_KNOWN:
             if MC_KNOWN[e] not in r.violated:
                 raise core.Machinery("anti-vacuity: the design-level instance of the known finding (entry %d) no longer violates %s: %s"
